@@ -12,7 +12,9 @@ def check(run, only=None):
                 "observed: every call's output and error against the same call made alone, and the race detector's reports; "
                 "non-trivial = every call of a run (calls of different content types overlap by construction: goroutines start "
                 "together and interleave templates); plus gated runs in which a blocking user function holds all 64 (thorough: up to 128) "
-                "callers three includes deep inside Execute at the same moment")
+                "callers at the same point inside Execute at the same moment - nine gated templates, the barrier inside a three-deep include, a "
+                "loop body, an overriding block that calls parent(), a macro body, an embed override, a filter section and a capture, "
+                "interpolations and filter arguments, between imported macro calls, after use")
     run.assumptions = ["the race detector observes the memory accesses of the traced run only; user callbacks and loader are race-free",
                        "absence of data races on unmodelled memory is observed, not model-checked"]
     # role 1: the design: with the traversal holding the visitor's lock every interleaving of 3 callers keeps OwnContentType
@@ -31,7 +33,7 @@ def check(run, only=None):
                               "seed": run.seed * 31 + i, "dl": 120000, "fresh": True})
         # the schedule "every caller is inside Execute at once" (all pc = "print" in C18.tla), forced with a blocking user
         # function as scheduler gate: 64 callers x 3 nested includes
-        for i, (n, rounds) in enumerate([(64, 4)] if not thorough else [(64, 20), (128, 10), (33, 20)]):
+        for i, (n, rounds) in enumerate([(64, 9), (17, 18)] if not thorough else [(64, 45), (128, 18), (33, 36)]):
             for env in ("twig", "core"):
                 cases.append({"id": "C18-gate-%s-%d" % (env, i), "k": "conc", "n": n, "rounds": rounds, "env": env, "gate": True,
                               "seed": run.seed * 31 + i, "dl": 120000, "fresh": True})
